@@ -89,7 +89,27 @@ class Path:
             return
         self.solver.add(c)
 
+    def _memo_query(self, thunk):
+        """solver answers are computed once per (decision prefix, query ordinal) and reused when the prefix is re-executed:
+        the executor is then a deterministic function of the decisions even when a time-out falls differently (busy machine)"""
+        cache = getattr(self.eng, "feas_cache", None)
+        if cache is None:
+            return thunk()
+        self.qn = getattr(self, "qn", 0) + 1
+        key = ("q", tuple(t[0] for t in self.taken), self.qn)
+        if key not in cache:
+            cache[key] = thunk()
+        return cache[key]
+
     def sat(self, *extra):
+        return self._memo_query(lambda: self._sat(*extra))
+
+    def implied(self, c):
+        if c is True:
+            return True
+        return self._memo_query(lambda: self._implied(c))
+
+    def _sat(self, *extra):
         self.solver.push()
         try:
             for e in extra:
@@ -102,12 +122,10 @@ class Path:
             return True
         return r == z3.sat
 
-    def implied(self, c):
+    def _implied(self, c):
         """pc |= c ?  (unknown counts as not implied)"""
-        if c is True:
-            return True
         if c is False:
-            return not self.sat()
+            return not self._sat()
         self.solver.push()
         try:
             self.solver.add(z3.Not(c))
@@ -1179,6 +1197,10 @@ class Engine:
             tag = self.value_tag(env[name], path)
             if tag is None:
                 continue
+            if not any(str(t).startswith("classobj") for t in tags):
+                # a class-layer instance is a Pregex of its inferred type for a callee that does not distinguish them
+                strip = lambda t: t.split(":", 1)[1] if t.startswith("classobj:") else t
+                tag = tuple(strip(t) for t in tag) if isinstance(tag, tuple) else strip(tag)
             if isinstance(tag, tuple):            # *args: a tuple of operand tags
                 import itertools
                 alts = [("str0", "str1", "str2") if t == "str" else (t.split(":")[0],) for t in tag]
@@ -1218,6 +1240,8 @@ class Engine:
             if isinstance(ty, Unknown) or ty is None:
                 return None
             shape = (getattr(v, "info", None) or {}).get("shape")
+            if "_Class__is_negated" in f:
+                return f"classobj:{ty.name}"
             return f"Group:{shape}" if ty.name == "Group" and shape else ty.name
         return None
 
@@ -1255,6 +1279,8 @@ class Engine:
             if normal is not True:
                 normal = simplify_bool(normal)
         options.append(("normal", normal))
+        for exc in c.get("may_raise", ()):
+            options.append((exc, True))         # allowed, condition unspecified: both outcomes are explored
         i = path.choose(options, f"contract {q}")
         name = options[i][0]
         if name != "normal":
